@@ -249,7 +249,13 @@ def rt(kind, shape_id, opts, active, p=None, d=None, s=None, b=None, text=False)
 def pair(kind, shape_a, shape_b, opts, active, p=None, d=None, s=None, b=None):
     """two round trips in ONE process: the second must not be affected by the first (defaults that are == but differ in type,
     e.g. False then 0.0, share hash and equality - the classic cache-key collision)"""
-    return rt(kind, shape_a, opts, active, p, d, s, b) and rt(kind, shape_b, opts, active, p, d, s, b)
+    from lib.chutil import realize, untraced
+
+    # the subject is state that survives between two calls (caches keyed by ==): the real functools / dict machinery must run, so
+    # the holes are realised (the solver enumerates them) and both conversions execute untraced
+    p, d, s, b = realize((p, d, s, b))
+    with untraced():
+        return rt(kind, shape_a, opts, active, p, d, s, b) and rt(kind, shape_b, opts, active, p, d, s, b)
 
 
 def chain(kinds, shape_id, opts, active, p=None, d=None, s=None, b=None):
